@@ -17,14 +17,18 @@
        items - Props/C06c.v's C06c_layout still needed Holds at every non-repeated elementary item), C06e_layout_flat ..
        C06e_stream_F for any decoder / encoder pair that round-trips (the three pairs: C06e_counter_pairs).
    (3) THE VALUE AS THE CODE SEES IT - a Z, not a nat.  Model/Counters.zwalk is LocationMaker.walk over Python's integers,
-       Location.__init__'s  if end:  test included.  C06e_walk_closed_form: for the flat family and EVERY count vector
-       over Z the navigator is a closed form of the vector.  C06e_after_table: the item after a table starts at
-       table start + table size where size = item_size * count, or 0 when start + item_size * count = 0; item_count IS
-       the counter's value.  C06e_negative_counter_layout: for count c < 0 the item after the table starts at
-       table_start + c * item_size - BEFORE the table - and every index is refused.  The property's sentence "every item
-       after the table is found immediately after the last occupied element" is kept for every counter value as
-       C06e_item_after_table_statement, REFUTED (C06e_item_after_table_refuted, witness PIC S9 = F0 D2 = -2: known
-       finding K-negative-counter) and PROVED when no counter is negative (C06e_item_after_table_nonneg).
+       Location.__init__'s  if end:  test included, and the sign test of the DependsOnArraySchema case
+       ( if maxItems < 0: raise ValueError - the fix of finding K-negative-counter, read from the source by harness/t1_layout.py
+       into Gen/LayoutParams.odo_negative_refused ) as a FLAG of the walk.  With the flag as the source has it now:
+       C06e_walk_closed_form (flat family, EVERY count vector over Z: the navigator is a closed form of the vector, or
+       ValueError when a table's counter is negative), C06e_negative_counter_refused (such a record is refused while the
+       navigator is built, so no item is ever located before the table), C06e_item_after_table_proved (the property's
+       sentence "every item after the table is found immediately after the last occupied element", kept for every counter
+       value as C06e_item_after_table_statement: the record is refused or the sentence holds), C06e_item_after_table_nonneg.
+       The behaviour the fix repaired is kept as statements about the walk WITHOUT the sign test (zwalk_with false):
+       C06e_walk_closed_form_old, C06e_after_table_old, C06e_negative_counter_layout_old (for count c < 0 the item after the
+       table started at table_start + c * item_size - BEFORE the table - and every index was refused),
+       C06e_item_after_table_old_refuted, C06e_negative_witness_old (PIC S9 = F0 D2 = -2).
    (4) A count ABOVE the declared maximum: the property says "the number of elements read is the value of the
        controlling item", and that is what the code does - the declared maximum reaches neither the schema nor the walk
        (C06e_count_above_maximum; no finding).
@@ -76,13 +80,19 @@ Theorem C06e_s94_comp_counter :
 Proof. exact s94_comp_counter. Qed.
 Print Assumptions C06e_s94_comp_counter.
 
-(* the exception-keeping decoders of Model/LayoutPartial.v (C10: a counter that does not decode) are these decoders with
-   a negative value clamped to 0 - the one place where Model/Layout.v and the code part ways (see (3)) *)
+(* the exception-keeping decoders of Model/LayoutPartial.v (C10: a counter that does not decode) are these decoders followed
+   by what the walk makes of the value (LayoutPartial.count_of_int): a negative one is refused with ValueError when the
+   source has the sign test (as it has now), else clamped to 0 *)
 Theorem C06e_partial_decoders : forall (bs : list N),
-  dcountp_zoned bs = match zcount_zoned bs with Ok z => Ok (Z.to_nat z) | Err e => Err e end
-  /\ dcountp_packed bs = match zcount_packed bs with Ok z => Ok (Z.to_nat z) | Err e => Err e end.
+  dcountp_zoned bs = match zcount_zoned bs with Ok z => count_of_int z | Err e => Err e end
+  /\ dcountp_packed bs = match zcount_packed bs with Ok z => count_of_int z | Err e => Err e end.
 Proof. exact partial_decoders. Qed.
 Print Assumptions C06e_partial_decoders.
+
+Theorem C06e_negative_count_refused_now : forall (z : Z),
+  count_of_int z = if (z <? 0)%Z then Err ValueError else Ok (Z.to_nat z).
+Proof. exact count_of_int_now. Qed.
+Print Assumptions C06e_negative_count_refused_now.
 
 (* ================================================================== (2) the layout theorems with these decoders *)
 
@@ -250,56 +260,31 @@ Print Assumptions C06e_stream_F.
 (* ================================================================== (3) the counter's value as the code sees it *)
 Open Scope Z_scope.
 
-(* flat family, EVERY count vector over Z: the navigator is the closed form Spec/CountersWf.zflat_nav *)
+(* flat family, EVERY count vector over Z, the walk as the source has it NOW (fix of finding K-negative-counter:
+   if maxItems < 0: raise ValueError, read by harness/t1_layout.py into Gen/LayoutParams.odo_negative_refused): the navigator
+   is the closed form Spec/CountersWf.zflat_nav - or, when some table's counter is negative, it is not built at all *)
 Theorem C06e_walk_closed_form : forall (zdec : list N -> res Z) (ze : id -> Z) (t : item) (r : list N),
   flat_odo t = true -> zcounters_hold zdec ze t r ->
-  znav_of zdec r (build t) = Ok (zflat_nav ze t).
-Proof. exact znav_flat. Qed.
+  znav_of zdec r (build t) = if has_neg ze (item_kids t) then Err ValueError else Ok (zflat_nav ze t).
+Proof. exact znav_flat_now. Qed.
 Print Assumptions C06e_walk_closed_form.
 
-(* a table x DEPENDING ON c and the item y declared after it, whatever c holds:
-     item_count = the value of c;   size = item_size * count, end = start + size - unless that end is 0: then size 0, end = start;
-     y starts at start + size;      an index at or beyond the count is refused *)
-Theorem C06e_after_table : forall (zdec : list N -> res Z) (ze : id -> Z) (t : item) (r : list N),
+(* a record in which a table's counter holds a negative value is REFUSED while the locations are built: no item of it is
+   ever located - before the table or anywhere else *)
+Theorem C06e_negative_counter_refused : forall (zdec : list N -> res Z) (ze : id -> Z) (t : item) (r : list N),
   flat_odo t = true -> zcounters_hold zdec ze t r ->
-  exists v, znav_of zdec r (build t) = Ok v
-    /\ forall x y c, consecutive (item_kids t) x y -> item_oc x = Odo c ->
-         exists vx vy st en sz isz sub sch,
-           znav_name v (KName (item_id x)) = Ok vx /\ znav_name v (KName (item_id y)) = Ok vy
-           /\ zn_loc vx = ZArr st en sz isz (ze c) sub sch
-           /\ sz = (if st + isz * ze c =? 0 then 0 else isz * ze c)
-           /\ en = (if st + isz * ze c =? 0 then st else st + isz * ze c)
-           /\ zstart (zn_loc vy) = st + sz
-           /\ (0 <= st -> isz = item_bytes x)
-           /\ (forall i, ze c <= i -> znav_index zdec r vx i = Err IndexError).
-Proof. exact after_table. Qed.
-Print Assumptions C06e_after_table.
+  (exists x c, in_items x (item_kids t) /\ item_oc x = Odo c /\ ze c < 0) ->
+  znav_of zdec r (build t) = Err ValueError.
+Proof. exact negative_counter_refused. Qed.
+Print Assumptions C06e_negative_counter_refused.
 
-(* a NEGATIVE counter (finding K-negative-counter): the table gets a negative length; the item after it starts at
-   table_start + c * item_size, BEFORE the table (at the table's start in the one case where that sum is 0, which
-   Location.__init__ takes for "no end given"); every index into the table is refused *)
-Theorem C06e_negative_counter_layout : forall (zdec : list N -> res Z) (ze : id -> Z) (t : item) (r : list N),
-  flat_odo t = true -> zcounters_hold zdec ze t r ->
-  exists v, znav_of zdec r (build t) = Ok v
-    /\ forall x y c, consecutive (item_kids t) x y -> item_oc x = Odo c -> ze c < 0 ->
-         exists vx vy st en sz isz sub sch,
-           znav_name v (KName (item_id x)) = Ok vx /\ znav_name v (KName (item_id y)) = Ok vy
-           /\ zn_loc vx = ZArr st en sz isz (ze c) sub sch
-           /\ (0 <= st -> isz = item_bytes x)
-           /\ (st + isz * ze c <> 0 ->
-                 sz = isz * ze c /\ en = st + isz * ze c /\ zstart (zn_loc vy) = st + ze c * isz
-                 /\ (0 < isz -> zstart (zn_loc vy) < st))
-           /\ (st + isz * ze c = 0 -> sz = 0 /\ en = st /\ zstart (zn_loc vy) = st)
-           /\ (forall i, znav_index zdec r vx i = Err IndexError).
-Proof. exact negative_counter_layout. Qed.
-Print Assumptions C06e_negative_counter_layout.
+(* the property's sentence for EVERY count vector (Spec/CountersWf.C06e_item_after_table_statement): either the navigator
+   is refused, or the item after a table starts where the last occupied element ends *)
+Theorem C06e_item_after_table_proved : C06e_item_after_table_statement.
+Proof. exact item_after_table_proved. Qed.
+Print Assumptions C06e_item_after_table_proved.
 
-(* the property's sentence for every counter value (Spec/CountersWf.C06e_item_after_table_statement) does not hold *)
-Theorem C06e_item_after_table_refuted : ~ C06e_item_after_table_statement.
-Proof. exact item_after_table_refuted. Qed.
-Print Assumptions C06e_item_after_table_refuted.
-
-(* ... and holds of the code, over Python's integers, whenever no counter is negative *)
+(* no counter negative: the navigator exists and every item after a table follows the last occupied element *)
 Theorem C06e_item_after_table_nonneg : forall (zdec : list N -> res Z) (ze : id -> Z) (t : item) (r : list N),
   flat_odo t = true -> zcounters_hold zdec ze t r ->
   (forall c, In c (counters_of (item_kids t)) -> 0 <= ze c) ->
@@ -311,16 +296,73 @@ Theorem C06e_item_after_table_nonneg : forall (zdec : list N -> res Z) (ze : id 
 Proof. exact item_after_table_nonneg. Qed.
 Print Assumptions C06e_item_after_table_nonneg.
 
-(* the witness, in numbers: 01 R. 05 N PIC S9. 05 T PIC X(2) OCCURS 0 TO 5 DEPENDING ON N. 05 Z PIC X(3). with N = F0 D2:
-   the record "ends" at 1, T is 2 .. -2 (size -4), Z is -2 .. 1 and reads no byte, T(0) is refused *)
-Theorem C06e_negative_witness :
-  exists v vt vz, znav_of zcount_zoned neg_rec (build neg_tree) = Ok v
+(* the witness of the former finding, now: 01 R. 05 N PIC S9. 05 T PIC X(2) OCCURS 0 TO 5 DEPENDING ON N. 05 Z PIC X(3).
+   with N = F0 D2 (-2) is refused *)
+Theorem C06e_negative_witness_refused : znav_of zcount_zoned neg_rec (build neg_tree) = Err ValueError.
+Proof. exact neg_witness_refused. Qed.
+Print Assumptions C06e_negative_witness_refused.
+
+(* ---- what the fix repaired: the walk WITHOUT the sign test (Model/Counters.zwalk_with false ...), finding K-negative-counter *)
+
+(* the closed form for every count vector, negative ones included *)
+Theorem C06e_walk_closed_form_old : forall (zdec : list N -> res Z) (ze : id -> Z) (t : item) (r : list N),
+  flat_odo t = true -> zcounters_hold zdec ze t r ->
+  znav_of_with false zdec r (build t) = Ok (zflat_nav ze t).
+Proof. exact znav_flat_old. Qed.
+Print Assumptions C06e_walk_closed_form_old.
+
+(* a table x DEPENDING ON c and the item y declared after it, whatever c holds:
+     item_count = the value of c;   size = item_size * count, end = start + size - unless that end is 0: then size 0, end = start;
+     y starts at start + size;      an index at or beyond the count is refused *)
+Theorem C06e_after_table_old : forall (zdec : list N -> res Z) (ze : id -> Z) (t : item) (r : list N),
+  flat_odo t = true -> zcounters_hold zdec ze t r ->
+  exists v, znav_of_with false zdec r (build t) = Ok v
+    /\ forall x y c, consecutive (item_kids t) x y -> item_oc x = Odo c ->
+         exists vx vy st en sz isz sub sch,
+           znav_name v (KName (item_id x)) = Ok vx /\ znav_name v (KName (item_id y)) = Ok vy
+           /\ zn_loc vx = ZArr st en sz isz (ze c) sub sch
+           /\ sz = (if st + isz * ze c =? 0 then 0 else isz * ze c)
+           /\ en = (if st + isz * ze c =? 0 then st else st + isz * ze c)
+           /\ zstart (zn_loc vy) = st + sz
+           /\ (0 <= st -> isz = item_bytes x)
+           /\ (forall i, ze c <= i -> znav_index_with false zdec r vx i = Err IndexError).
+Proof. exact after_table_old. Qed.
+Print Assumptions C06e_after_table_old.
+
+(* a NEGATIVE counter was accepted: the table got a negative length; the item after it started at
+   table_start + c * item_size, BEFORE the table (at the table's start in the one case where that sum is 0, which
+   Location.__init__ takes for "no end given"); every index into the table was refused *)
+Theorem C06e_negative_counter_layout_old : forall (zdec : list N -> res Z) (ze : id -> Z) (t : item) (r : list N),
+  flat_odo t = true -> zcounters_hold zdec ze t r ->
+  exists v, znav_of_with false zdec r (build t) = Ok v
+    /\ forall x y c, consecutive (item_kids t) x y -> item_oc x = Odo c -> ze c < 0 ->
+         exists vx vy st en sz isz sub sch,
+           znav_name v (KName (item_id x)) = Ok vx /\ znav_name v (KName (item_id y)) = Ok vy
+           /\ zn_loc vx = ZArr st en sz isz (ze c) sub sch
+           /\ (0 <= st -> isz = item_bytes x)
+           /\ (st + isz * ze c <> 0 ->
+                 sz = isz * ze c /\ en = st + isz * ze c /\ zstart (zn_loc vy) = st + ze c * isz
+                 /\ (0 < isz -> zstart (zn_loc vy) < st))
+           /\ (st + isz * ze c = 0 -> sz = 0 /\ en = st /\ zstart (zn_loc vy) = st)
+           /\ (forall i, znav_index_with false zdec r vx i = Err IndexError).
+Proof. exact negative_counter_layout_old. Qed.
+Print Assumptions C06e_negative_counter_layout_old.
+
+(* so the property's sentence - even with "or the record is refused" - did not hold of that walk *)
+Theorem C06e_item_after_table_old_refuted : ~ C06e_item_after_table_statement_old.
+Proof. exact item_after_table_old_refuted. Qed.
+Print Assumptions C06e_item_after_table_old_refuted.
+
+(* the witness, in numbers, under the old walk: the record "ends" at 1, T is 2 .. -2 (size -4), Z is -2 .. 1 and reads no
+   byte, T(0) is refused *)
+Theorem C06e_negative_witness_old :
+  exists v vt vz, znav_of_with false zcount_zoned neg_rec (build neg_tree) = Ok v
     /\ (zstart (zn_loc v), zend (zn_loc v), zsize (zn_loc v)) = (0, 1, 1)
     /\ znav_name v (KName 3%N) = Ok vt /\ (zstart (zn_loc vt), zend (zn_loc vt), zsize (zn_loc vt)) = (2, -2, -4)
     /\ znav_name v (KName 4%N) = Ok vz /\ (zstart (zn_loc vz), zend (zn_loc vz), zsize (zn_loc vz)) = (-2, 1, 3)
-    /\ znav_raw neg_rec vz = [] /\ znav_index zcount_zoned neg_rec vt 0 = Err IndexError.
-Proof. exact neg_witness_layout. Qed.
-Print Assumptions C06e_negative_witness.
+    /\ znav_raw neg_rec vz = [] /\ znav_index_with false zcount_zoned neg_rec vt 0 = Err IndexError.
+Proof. exact neg_witness_layout_old. Qed.
+Print Assumptions C06e_negative_witness_old.
 
 (* ================================================================== (4) a count above the declared maximum *)
 Open Scope nat_scope.
@@ -421,11 +463,13 @@ Proof.
   split; [|split; reflexivity]. exists 3%N, 2%N. split; [left; reflexivity|]. cbn. auto.
 Qed.
 
-(* negative: the witness satisfies the hypotheses of C06e_walk_closed_form / C06e_negative_counter_layout *)
+(* negative: the witness satisfies the hypotheses of C06e_negative_counter_refused / C06e_negative_counter_layout_old *)
 Example C06e_negative_example :
   flat_odo neg_tree = true /\ zcounters_hold zcount_zoned neg_ze neg_tree neg_rec
-  /\ consecutive (item_kids neg_tree) neg_table neg_next /\ item_oc neg_table = Odo 2%N /\ (neg_ze 2%N < 0)%Z.
+  /\ consecutive (item_kids neg_tree) neg_table neg_next /\ item_oc neg_table = Odo 2%N /\ (neg_ze 2%N < 0)%Z
+  /\ (exists x c, in_items x (item_kids neg_tree) /\ item_oc x = Odo c /\ (neg_ze c < 0)%Z).
 Proof.
   destruct neg_witness_holds as [H1 H2]. split; [exact H1|]. split; [exact H2|].
-  split; [right; left; split; reflexivity|]. split; reflexivity.
+  split; [right; left; split; reflexivity|]. split; [reflexivity|]. split; [reflexivity|].
+  exists neg_table, 2%N. split; [right; left; reflexivity|]. split; reflexivity.
 Qed.
